@@ -49,7 +49,32 @@ func isArtefactCall(s ast.Stmt, alias string) bool {
 
 func stripList(list []ast.Stmt, alias string) []ast.Stmt {
 	out := list[:0:0]
-	for _, s := range list {
+	for i := 0; i < len(list); i++ {
+		s := list[i]
+		// a tracking block written between a label and its statement: the label labels the
+		// tracking call now; without the call it labels the statement that follows
+		if ls, ok := s.(*ast.LabeledStmt); ok {
+			inner := ls
+			for {
+				n, ok := inner.Stmt.(*ast.LabeledStmt)
+				if !ok {
+					break
+				}
+				inner = n
+			}
+			if isArtefactCall(inner.Stmt, alias) {
+				j := i + 1
+				for j < len(list) && isArtefactCall(list[j], alias) {
+					j++
+				}
+				if j < len(list) {
+					inner.Stmt = list[j]
+					i = j
+				}
+			}
+			out = append(out, s)
+			continue
+		}
 		if !isArtefactCall(s, alias) {
 			out = append(out, s)
 		}
